@@ -165,6 +165,12 @@ Proof.
   apply IH.
 Qed.
 
+Lemma nth_firstn_lt {A} i n (l : list A) d : (i < n)%nat -> nth i (firstn n l) d = nth i l d.
+Proof.
+  revert i l; induction n; intros i l H; [lia|].
+  destruct l; [now destruct i|]. destruct i; cbn; [reflexivity|]. apply IHn. lia.
+Qed.
+
 Lemma set_nth_length {A} n (x : A) l : length (set_nth n x l) = length l.
 Proof. revert n; induction l; intros [|n]; cbn; auto. Qed.
 
@@ -192,7 +198,7 @@ Definition planes_fit (hd : header) (ps : list plane) : Prop :=
 
 Lemma row_size_bps w d : depth_ok d -> row_size w d = w * bps d.
 Proof.
-  unfold depth_ok, row_size, bps. intros [->|[->|->]]; cbn [Z.div Z.max];
+  unfold depth_ok, row_size, bps. intros [ -> | [ -> | -> ] ]; cbn [Z.div Z.max];
     change (8 / 8) with 1; change (16 / 8) with 2; change (32 / 8) with 4.
   - replace (w * 8 + 7) with (7 + w * 8) by lia. rewrite Z.div_add by lia. cbn. lia.
   - replace (w * 16 + 7) with (7 + (w * 2) * 8) by lia. rewrite Z.div_add by lia. cbn. lia.
@@ -203,7 +209,7 @@ Lemma bps_pos d : 1 <= bps d.
 Proof. unfold bps. lia. Qed.
 
 Lemma bps_cases d : depth_ok d -> (d = 8 /\ bps d = 1) \/ (d = 16 /\ bps d = 2) \/ (d = 32 /\ bps d = 4).
-Proof. unfold depth_ok, bps. intros [->|[->|->]]; cbn; auto. Qed.
+Proof. unfold depth_ok, bps. intros [ -> | [ -> | -> ] ]; cbn; auto. Qed.
 
 Lemma planes_fit_concat hd ps : header_ok hd -> planes_fit hd ps ->
   zlen (concat ps) = h_channels hd * plane_bytes hd.
@@ -250,25 +256,25 @@ Proof.
   unfold set_data. fold data.
   destruct c; cbn [bind].
   - (* RAW *)
-    unfold get_data, decompress_vis; cbn [i_comp i_vis bind].
+    unfold get_data, decompress_vis; cbn [i_comp i_vis bind]; cbv zeta.
     rewrite Hwant, Hall, Z.eqb_refl. cbn [bind]. now rewrite Hsplit.
   - (* RLE *)
     rewrite row_size_bps by assumption.
     replace (h_h hd * h_channels hd * (h_w hd * bps (h_depth hd))) with (zlen data) by lia.
     rewrite Hall.
-    unfold get_data, decompress_vis; cbn [i_comp i_vis bind].
+    unfold get_data, decompress_vis; cbn [i_comp i_vis bind]; cbv zeta.
     rewrite row_size_bps by assumption.
     replace (Z.max (h_w hd * bps (h_depth hd)) 1) with (h_w hd * bps (h_depth hd)) by nia.
     replace (h_h hd * h_channels hd * (h_w hd * bps (h_depth hd))) with (zlen data) by lia.
     rewrite Hwant, Z.eqb_refl. cbn [bind]. now rewrite Hsplit.
   - (* ZIP *)
-    unfold get_data, decompress_vis; cbn [i_comp i_vis bind].
+    unfold get_data, decompress_vis; cbn [i_comp i_vis bind]; cbv zeta.
     rewrite Hwant, Z.eqb_refl. cbn [bind]. now rewrite Hsplit.
   - (* ZIP with prediction *)
     rewrite <- Hwant. rewrite zipp_check_exact by (try assumption; nia). cbn [bind].
-    unfold get_data, decompress_vis; cbn [i_comp i_vis bind].
+    unfold get_data, decompress_vis; cbn [i_comp i_vis bind]; cbv zeta.
     rewrite <- Hwant. rewrite zipp_check_exact by (try assumption; nia). cbn [bind].
-    rewrite Z.eqb_refl. cbn [bind]. rewrite Hwant. now rewrite Hsplit.
+    rewrite Z.eqb_refl. cbn [bind]. try rewrite Hwant. now rewrite Hsplit.
 Qed.
 
 Lemma decompress_vis_len st w rows d data :
@@ -323,4 +329,484 @@ Proof.
     rewrite Z.div_mul by lia. lia.
   - apply Z.div_pos; [apply zlen_nonneg|lia].
   - lia.
+Qed.
+
+(* ================================================================== save(): the merged image *)
+Lemma clean_save c hd old rd t ti : save c hd false old rd t ti = Ok old.
+Proof. reflexivity. Qed.
+
+(* the rendered planes have the size of one plane of the header *)
+Definition rendered_fit (hd : header) (rd : rendered) : Prop :=
+  Forall (fun p => zlen p = plane_bytes hd) (rd_straight rd) /\
+  Forall (fun p => zlen p = plane_bytes hd) (rd_white rd) /\
+  zlen (rd_alpha rd) = plane_bytes hd /\
+  length (rd_white rd) = length (rd_straight rd).
+
+Definition chosen_color (hd : header) (rd : rendered) (transparency : bool) : list plane :=
+  match h_cm hd with
+  | CRgb => rd_white rd
+  | _ => if transparency then rd_straight rd else rd_white rd
+  end.
+
+Lemma chosen_color_fit hd rd t : rendered_fit hd rd ->
+  Forall (fun p => zlen p = plane_bytes hd) (chosen_color hd rd t) /\
+  length (chosen_color hd rd t) = length (rd_straight rd).
+Proof.
+  intros (Hs & Hw & Ha & Hl). unfold chosen_color.
+  destruct (h_cm hd), t; auto.
+Qed.
+
+(* the corrected save(): whatever the channel count, depth and compression, the merged image that is
+   written reads back, has exactly the planes the header declares, holds the rendered colour in the
+   colour planes and the rendered alpha in the transparency plane, and keeps every other plane *)
+Lemma save_fixed_spec c hd old rd transp ti planes :
+  fx_save c = true -> header_ok hd -> h_cm hd <> CBitmap ->
+  get_data old hd = Ok planes -> rendered_fit hd rd ->
+  (length (rd_straight rd) <= length planes)%nat -> 0 <= ti < h_channels hd ->
+  let nc := length (rd_straight rd) in
+  let transparency := transp && (nc <? length planes)%nat in
+  exists st ps,
+    save c hd true old rd transp ti = Ok st /\ get_data st hd = Ok ps /\
+    planes_fit hd ps /\
+    (transparency = false -> firstn nc ps = chosen_color hd rd false /\ skipn nc ps = skipn nc planes) /\
+    (transparency = true -> nth (Z.to_nat ti) ps [] = rd_alpha rd /\
+       forall i, (i < nc)%nat -> i <> Z.to_nat ti -> nth i ps [] = nth i (chosen_color hd rd true) []).
+Proof.
+  intros Hfx Hh Hcm Hold Hrd Hnc Hti nc transparency.
+  pose proof (get_data_fit _ _ _ Hh Hold) as [Hpn Hps].
+  destruct (chosen_color_fit hd rd transparency Hrd) as [Hcf Hcl].
+  destruct Hrd as (Hs & Hw & Ha & Hl).
+  set (color := chosen_color hd rd transparency) in *.
+  set (planes1 := overwrite color planes).
+  set (planes2 := if transparency then set_nth (Z.to_nat ti) (rd_alpha rd) planes1 else planes1).
+  assert (Hfit2 : planes_fit hd planes2).
+  { unfold planes_fit, planes2, zlen. destruct transparency.
+    - rewrite set_nth_length. unfold planes1. rewrite overwrite_length. split; [exact Hpn|].
+      apply set_nth_Forall; [exact Ha|]. apply overwrite_Forall; assumption.
+    - unfold planes1. rewrite overwrite_length. split; [exact Hpn|].
+      apply overwrite_Forall; assumption. }
+  pose proof (set_get_inverse (i_comp old) hd planes2 Hh Hfit2) as Hinv.
+  assert (Hsave : save c hd true old rd transp ti = set_data (i_comp old) hd planes2).
+  { unfold save. cbn [negb]. rewrite Hfx. cbn [negb].
+    assert (Hd1 : (h_depth hd =? 1) = false).
+    { destruct Hh as (_ & _ & _ & [E|[E|E]]); rewrite E; reflexivity. }
+    rewrite Hd1, Hold. cbn [bind].
+    fold nc. replace (length planes <? nc)%nat with false by (symmetry; apply Nat.ltb_ge; exact Hnc).
+    fold transparency. unfold planes2, planes1, color, chosen_color.
+    destruct (h_cm hd); try congruence; reflexivity. }
+  destruct (set_data (i_comp old) hd planes2) as [st|e] eqn:Est; cbn [bind] in Hinv; [|discriminate].
+  exists st, planes2.
+  split; [exact Hsave|]. split; [exact Hinv|]. split; [exact Hfit2|]. split.
+  - intro Ht.
+    assert (Hc' : color = chosen_color hd rd false) by (unfold color; now rewrite Ht).
+    split.
+    + unfold planes2, planes1. rewrite Ht. unfold nc. rewrite <- Hcl, <- Hc'.
+      apply firstn_overwrite. rewrite Hcl. exact Hnc.
+    + unfold planes2, planes1. rewrite Ht. unfold nc. rewrite <- Hcl. apply skipn_overwrite.
+  - intro Ht.
+    assert (Hc' : color = chosen_color hd rd true) by (unfold color; now rewrite Ht).
+    split.
+    + unfold planes2. rewrite Ht. apply nth_set_nth_same.
+      unfold planes1. rewrite overwrite_length. unfold zlen in Hpn. lia.
+    + intros i Hi Hne. unfold planes2. rewrite Ht.
+      rewrite nth_set_nth_other by congruence.
+      unfold planes1. rewrite <- Hc'.
+      assert (Hf : firstn (length color) (overwrite color planes) = color)
+        by (apply firstn_overwrite; rewrite Hcl; exact Hnc).
+      rewrite <- Hf at 2. symmetry. apply nth_firstn_lt. rewrite Hcl. exact Hi.
+Qed.
+
+(* the code as it is: a forced composite always carries an alpha band and 8-bit samples *)
+Definition rendered8 (hd : header) (rd : rendered) : Prop :=
+  length (rd_straight rd) = Z.to_nat (cm_channels (h_cm hd)) /\
+  Forall (fun p => zlen p = h_w hd * h_h hd) (rd_straight rd) /\
+  zlen (rd_alpha rd) = h_w hd * h_h hd.
+
+(* exactly these documents get a merged image that holds what the composite delivered *)
+Definition unfixed_save_class (hd : header) : Prop :=
+  h_depth hd = 8 /\ ((h_cm hd = CGray /\ h_channels hd = 2) \/ (h_cm hd = CRgb /\ h_channels hd = 4)).
+
+Lemma save_unfixed_ok c hd old rd transp ti :
+  fx_save c = false -> header_ok hd -> rendered8 hd rd -> unfixed_save_class hd ->
+  exists st, save c hd true old rd transp ti = Ok st /\
+             get_data st hd = Ok (rd_straight rd ++ [rd_alpha rd]).
+Proof.
+  intros Hfx Hh (Hn & Hs & Ha) (Hd & Hcls).
+  assert (Hfit : planes_fit hd (rd_straight rd ++ [rd_alpha rd])).
+  { unfold planes_fit, plane_bytes. rewrite Hd. change (bps 8) with 1. rewrite Z.mul_1_r. split.
+    - rewrite zlen_app. unfold zlen at 1. rewrite Hn.
+      destruct Hcls as [[E1 E2]|[E1 E2]]; rewrite E1, E2; reflexivity.
+    - apply Forall_app; split; [exact Hs| constructor; [exact Ha| constructor]]. }
+  pose proof (set_get_inverse (i_comp old) hd _ Hh Hfit) as Hinv.
+  unfold save. cbn [negb]. rewrite Hfx. cbn [negb].
+  destruct Hcls as [[E1 E2]|[E1 E2]]; unfold composite_pil_force; rewrite E1; cbn [bind r_bands];
+    destruct (set_data (i_comp old) hd (rd_straight rd ++ [rd_alpha rd])) as [st|e];
+    cbn [bind] in Hinv; try discriminate; exists st; split; auto.
+Qed.
+
+Lemma save_unfixed_only c hd old rd transp ti st :
+  fx_save c = false -> header_ok hd -> rendered8 hd rd ->
+  save c hd true old rd transp ti = Ok st ->
+  get_data st hd = Ok (rd_straight rd ++ [rd_alpha rd]) ->
+  unfixed_save_class hd.
+Proof.
+  intros Hfx Hh (Hn & Hs & Ha) Hsave Hget.
+  pose proof (get_data_fit _ _ _ Hh Hget) as [Hcnt Hsz].
+  destruct Hh as (Hw & Hht & Hc & Hd).
+  unfold save in Hsave. cbn [negb] in Hsave. rewrite Hfx in Hsave. cbn [negb] in Hsave.
+  rewrite zlen_app in Hcnt. unfold zlen in Hcnt at 1. rewrite Hn in Hcnt. cbn in Hcnt.
+  apply Forall_app in Hsz as [_ Hsz]. inversion Hsz as [|? ? Hsa _]; subst.
+  rewrite Ha in Hsa. unfold plane_bytes in Hsa.
+  assert (Hb : bps (h_depth hd) = 1) by nia.
+  assert (Hd8 : h_depth hd = 8).
+  { destruct (bps_cases _ Hd) as [[? ?]|[[? ?]|[? ?]]]; lia. }
+  split; [exact Hd8|].
+  unfold composite_pil_force in Hsave.
+  destruct (h_cm hd) eqn:Ecm; cbn [bind] in Hsave; try discriminate; cbn in Hcnt.
+  - left. split; [reflexivity|lia].
+  - right. split; [reflexivity|lia].
+Qed.
+
+(* ================================================================== layers: import then export *)
+Definition with_opaque (r : raster) : raster :=
+  match r_mode r with
+  | ML => mkR MLA (r_w r) (r_h r) (r_bands r ++ [opaque (r_w r) (r_h r)])
+  | MRGB => mkR MRGBA (r_w r) (r_h r) (r_bands r ++ [opaque (r_w r) (r_h r)])
+  | _ => r
+  end.
+
+Lemma layer_topil_mk cm top left w h chans : 1 <= w -> 1 <= h ->
+  layer_topil cm (mkL top left (top + h) (left + w) chans) =
+  let color := map snd (filter (fun c => 0 <=? fst c) chans) in
+  let expected := Z.to_nat (cm_channels cm) in
+  if (length color <? expected)%nat then Err ValueErr
+  else Ok (Some (post_process (mkR (cm_pil cm false) w h (firstn expected color))
+                              (option_map snd (find (fun c => fst c =? -1) chans)))).
+Proof.
+  intros Hw Hh. unfold layer_topil, find_chan. cbn [l_right l_left l_bottom l_top l_chans].
+  replace (left + w - left) with w by lia. replace (top + h - top) with h by lia.
+  destruct ((w =? 0) || (h =? 0)) eqn:E; [lia|]. reflexivity.
+Qed.
+
+Section Laws.
+  Variable conv : mode -> raster -> raster.
+  Hypothesis conv_same : forall r, conv (r_mode r) r = r.
+  Hypothesis conv_alpha : forall r, has_alpha (r_mode r) = true ->
+    last_band (conv MRGBA r) = last_band r.
+
+  (* import into a document whose PIL mode is the image's mode, then export: the image comes back,
+     with an opaque alpha band where the image had none (L, RGB) *)
+  Lemma layer_roundtrip c img top left :
+    wf_raster img -> 1 <= r_w img -> 1 <= r_h img -> r_mode img <> M1 ->
+    layer_topil (color_mode_of (r_mode img))
+                (layer_frompil conv c (Some (r_mode img)) img top left)
+    = Ok (Some (with_opaque img)).
+  Proof.
+    intros (Hw0 & Hh0 & Hlen & Hall) Hw Hh Hm.
+    destruct img as [m w h bands]. cbn [r_mode r_w r_h r_bands] in *.
+    destruct m; try congruence; cbn in Hlen;
+      repeat (destruct bands as [|? bands]; try discriminate);
+      unfold layer_frompil; cbn [r_mode mode_eqb mode_code Z.eqb has_alpha];
+      match goal with |- context [conv ?m ?r] =>
+        let E := fresh in pose proof (conv_same r) as E; cbn [r_mode] in E
+      end.
+    - (* L *)
+      rewrite H. cbn [r_mode r_w r_h r_bands mode_eqb mode_code Z.eqb has_alpha base pil_channels firstn].
+      destruct (fx_alpha c); rewrite layer_topil_mk by assumption; reflexivity.
+    - (* LA *)
+      rewrite H.
+      pose proof (conv_alpha (mkR MLA w h [p; p0]) eq_refl) as Ea. rewrite Ea.
+      cbn [r_mode r_w r_h r_bands mode_eqb mode_code Z.eqb has_alpha base pil_channels firstn last_band last].
+      destruct (fx_alpha c); rewrite layer_topil_mk by assumption; reflexivity.
+    - (* RGB *)
+      rewrite H. cbn [r_mode r_w r_h r_bands mode_eqb mode_code Z.eqb has_alpha base pil_channels firstn].
+      destruct (fx_alpha c); rewrite layer_topil_mk by assumption; reflexivity.
+    - (* RGBA *)
+      rewrite H.
+      cbn [r_mode r_w r_h r_bands mode_eqb mode_code Z.eqb has_alpha base pil_channels firstn last_band last].
+      destruct (fx_alpha c); rewrite layer_topil_mk by assumption; reflexivity.
+    - (* CMYK: inverted on import (layers.py) and inverted back by post_process *)
+      rewrite H.
+      cbn [r_mode r_w r_h r_bands mode_eqb mode_code Z.eqb has_alpha base pil_channels firstn invert map Pos.eqb].
+      destruct (fx_alpha c); rewrite layer_topil_mk by assumption;
+        cbn -[inv_plane]; unfold invert; cbn -[inv_plane]; change (Pos.to_nat 4) with 4%nat; cbn -[inv_plane]; rewrite !inv_plane_inv; reflexivity.
+  Qed.
+
+  (* the NumPy export of the same layer: the stored planes (CMYK: stored inverted) then alpha *)
+  Lemma layer_numpy_roundtrip c img top left :
+    wf_raster img -> r_mode img <> M1 ->
+    layer_numpy (color_mode_of (r_mode img))
+                (layer_frompil conv c (Some (r_mode img)) img top left)
+    = (if mode_eqb (r_mode img) MCMYK then map inv_plane (r_bands img) else color_bands img)
+      ++ [if has_alpha (r_mode img) then last_band img else opaque (r_w img) (r_h img)].
+  Proof.
+    intros (Hw0 & Hh0 & Hlen & Hall) Hm.
+    destruct img as [m w h bands]. cbn [r_mode r_w r_h r_bands] in *.
+    destruct m; try congruence; cbn in Hlen;
+      repeat (destruct bands as [|? bands]; try discriminate);
+      unfold layer_frompil; cbn [r_mode mode_eqb mode_code Z.eqb has_alpha];
+      match goal with |- context [conv ?m ?r] =>
+        let E := fresh in pose proof (conv_same r) as E; cbn [r_mode] in E; rewrite E
+      end.
+    - destruct (fx_alpha c); reflexivity.
+    - pose proof (conv_alpha (mkR MLA w h [p; p0]) eq_refl) as Ea. rewrite Ea.
+      destruct (fx_alpha c); reflexivity.
+    - destruct (fx_alpha c); reflexivity.
+    - destruct (fx_alpha c); reflexivity.
+    - destruct (fx_alpha c); reflexivity.
+  Qed.
+
+  (* corrected PixelLayer.frompil: the transparency channel of the layer is the alpha band of the
+     image, whatever the document's mode is (even none) *)
+  Lemma layer_alpha_kept c docpm img top left :
+    fx_alpha c = true -> r_mode img <> M1 -> has_alpha (r_mode img) = true ->
+    find_chan (-1) (layer_frompil conv c docpm img top left) = Some (last_band img).
+  Proof.
+    intros Hfx Hm Ha. unfold layer_frompil, find_chan. rewrite Hfx.
+    replace (mode_eqb (r_mode img) M1) with false
+      by (destruct (r_mode img); try reflexivity; congruence).
+    rewrite Ha. cbn. now rewrite conv_alpha.
+  Qed.
+End Laws.
+
+(* a tiny PIL stand-in that satisfies both laws: used for witnesses and examples only *)
+Definition conv_simple (m : mode) (r : raster) : raster :=
+  if mode_eqb m (r_mode r) then r
+  else match r_mode r, m with
+       | MRGBA, MRGB => mkR MRGB (r_w r) (r_h r) (firstn 3 (r_bands r))
+       | MLA, ML => mkR ML (r_w r) (r_h r) (firstn 1 (r_bands r))
+       | MLA, MRGBA => let l := nth 0 (r_bands r) [] in
+                       mkR MRGBA (r_w r) (r_h r) [l; l; l; last_band r]
+       | MRGB, MRGBA => mkR MRGBA (r_w r) (r_h r) (r_bands r ++ [opaque (r_w r) (r_h r)])
+       | ML, MLA => mkR MLA (r_w r) (r_h r) (r_bands r ++ [opaque (r_w r) (r_h r)])
+       | _, _ => mkR m (r_w r) (r_h r) (r_bands r)
+       end.
+
+Lemma conv_simple_same r : conv_simple (r_mode r) r = r.
+Proof. unfold conv_simple, mode_eqb. now rewrite Z.eqb_refl. Qed.
+
+Lemma conv_simple_alpha r : has_alpha (r_mode r) = true ->
+  last_band (conv_simple MRGBA r) = last_band r.
+Proof. destruct r as [[] w h b]; cbn; try discriminate; reflexivity. Qed.
+
+(* ================================================================== layer exports agree *)
+Lemma pil_numpy_agree_layer cm l r :
+  layer_topil cm l = Ok (Some r) ->
+  match cm with
+  | CGray | CRgb => r_bands r = layer_numpy cm l
+  | CCmyk => map inv_plane (r_bands r) ++
+             match find_chan (-1) l with Some a => [a] | None => [] end = layer_numpy cm l
+  | CBitmap => True
+  end.
+Proof.
+  unfold layer_topil, layer_numpy.
+  destruct (_ || _); [discriminate|].
+  set (color := map snd (filter (fun c => 0 <=? fst c) (l_chans l))).
+  destruct (_ <? _)%nat; [discriminate|].
+  intro H; inversion H; subst r; clear H.
+  destruct cm; cbn; auto.
+  - destruct (find_chan (-1) l); cbn; [reflexivity| now rewrite app_nil_r].
+  - destruct (find_chan (-1) l); cbn; [reflexivity| now rewrite app_nil_r].
+  - unfold post_process. cbn [r_mode mode_eqb mode_code Z.eqb Pos.eqb cm_pil].
+    destruct (find_chan (-1) l); cbn [putalpha invert r_mode r_bands];
+      now rewrite inv_planes_inv.
+Qed.
+
+(* ================================================================== documents: import then export *)
+Lemma zipw_length f a b : length a = length b -> length (zipw f a b) = length a.
+Proof.
+  revert b; induction a as [|x a IH]; intros [|y b] H; cbn in *; try discriminate; auto.
+Qed.
+
+Lemma doc_topil_after_set cmp hd planes transp : header_ok hd -> planes_fit hd planes ->
+  (do st <- set_data cmp hd planes; doc_topil hd st transp) =
+  Ok (unmatte (post_process
+                 (mkR (cm_pil (h_cm hd) false) (h_w hd) (h_h hd)
+                      (firstn (pil_channels (cm_pil (h_cm hd) false)) planes))
+                 (if transp then Some (last planes []) else None))).
+Proof.
+  intros Hh Hf. pose proof (set_get_inverse cmp hd planes Hh Hf) as Hinv.
+  destruct (set_data cmp hd planes) as [st|e]; cbn [bind] in *; [|discriminate].
+  unfold doc_topil. rewrite Hinv. reflexivity.
+Qed.
+
+Lemma doc_numpy_after_set cmp hd planes : header_ok hd -> planes_fit hd planes ->
+  (h_cm hd <> CRgb \/ (length planes <= 3)%nat) ->
+  (do st <- set_data cmp hd planes; doc_numpy hd st) = Ok planes.
+Proof.
+  intros Hh Hf Hc. pose proof (set_get_inverse cmp hd planes Hh Hf) as Hinv.
+  destruct (set_data cmp hd planes) as [st|e]; cbn [bind] in *; [|discriminate].
+  unfold doc_numpy. rewrite Hinv. cbn [bind].
+  destruct (h_cm hd); try reflexivity.
+  destruct Hc as [Hc|Hc]; [congruence|].
+  replace (3 <? length planes)%nat with false by (symmetry; apply Nat.ltb_ge; exact Hc).
+  reflexivity.
+Qed.
+
+Lemma wf_plane_zlen w h p : 0 <= w -> 0 <= h -> wf_plane w h p -> zlen p = w * h * bps 8.
+Proof.
+  intros Hw Hh [Hl _]. unfold zlen, npix in *. rewrite Hl. change (bps 8) with 1.
+  rewrite Z2Nat.id by nia. lia.
+Qed.
+
+Section DocLaws.
+  Variable conv : mode -> raster -> raster.
+
+  (* what a document made by PSDImage.frompil exports, mode by mode *)
+  Definition doc_export (c : cfg) (cmp : comp) (img : raster) : res raster :=
+    do x <- doc_frompil conv c cmp img;
+    doc_topil (fst x) (snd x) (doc_has_transparency (fst x) 0).
+
+  Definition doc_export_np (c : cfg) (cmp : comp) (img : raster) : res (list plane) :=
+    do x <- doc_frompil conv c cmp img; doc_numpy (fst x) (snd x).
+
+  Lemma doc_export_unfold c cmp img :
+    doc_export c cmp img =
+    (do st <- set_data cmp (fst (doc_frompil_planes conv c img)) (snd (doc_frompil_planes conv c img));
+     doc_topil (fst (doc_frompil_planes conv c img)) st
+               (doc_has_transparency (fst (doc_frompil_planes conv c img)) 0)).
+  Proof.
+    unfold doc_export, doc_frompil. destruct (doc_frompil_planes conv c img) as [hd planes].
+    cbn [fst snd]. destruct (set_data cmp hd planes); reflexivity.
+  Qed.
+
+  Lemma doc_export_np_unfold c cmp img :
+    doc_export_np c cmp img =
+    (do st <- set_data cmp (fst (doc_frompil_planes conv c img)) (snd (doc_frompil_planes conv c img));
+     doc_numpy (fst (doc_frompil_planes conv c img)) st).
+  Proof.
+    unfold doc_export_np, doc_frompil. destruct (doc_frompil_planes conv c img) as [hd planes].
+    cbn [fst snd]. destruct (set_data cmp hd planes); reflexivity.
+  Qed.
+
+  Lemma doc_export_spec c cmp img :
+    wf_raster img -> 1 <= r_w img -> 1 <= r_h img -> r_mode img <> M1 ->
+    doc_export c cmp img =
+    Ok (match r_mode img with
+        | MCMYK => if fx_cmyk c then img else invert img
+        | MRGBA => if fx_matte c then unmatte (matte img) else unmatte img
+        | _ => img
+        end).
+  Proof.
+    intros (Hw0 & Hh0 & Hlen & Hall) Hw Hh Hm.
+    destruct img as [m w h bands]. cbn [r_mode r_w r_h r_bands] in *.
+    rewrite doc_export_unfold. unfold doc_frompil_planes.
+    assert (Hz : forall p, wf_plane w h p -> zlen p = w * h * bps 8)
+      by (intros; apply wf_plane_zlen; auto).
+    assert (Hok : forall cm ch, 1 <= ch -> header_ok (mkH cm ch w h 8))
+      by (intros; unfold header_ok, depth_ok; cbn; auto).
+    assert (Hfit : forall cm ch ps, zlen ps = ch -> Forall (fun p => zlen p = w * h * bps 8) ps ->
+                                    planes_fit (mkH cm ch w h 8) ps)
+      by (intros; split; auto).
+    destruct m; try congruence; cbn in Hlen;
+      repeat (destruct bands as [|? bands]; try discriminate);
+      repeat match goal with H : Forall _ (_ :: _) |- _ => inversion H; clear H; subst end;
+      replace (fx_bitmap c && mode_eqb _ M1) with false by (now rewrite andb_false_r);
+      cbn [r_mode r_w r_h r_bands mode_eqb mode_code Z.eqb Pos.eqb andb].
+    - (* L *)
+      rewrite !andb_false_r.
+      unfold make_header; cbn [fst snd r_mode r_w r_h r_bands mode_eqb mode_code Z.eqb Pos.eqb
+           color_mode_of has_alpha cm_channels Z.add].
+      rewrite doc_topil_after_set; [reflexivity| apply Hok; lia | apply Hfit; [reflexivity|]; repeat constructor; auto].
+    - (* LA *)
+      rewrite !andb_false_r.
+      unfold make_header; cbn [fst snd r_mode r_w r_h r_bands mode_eqb mode_code Z.eqb Pos.eqb
+           color_mode_of has_alpha cm_channels Z.add].
+      rewrite doc_topil_after_set; [reflexivity| apply Hok; lia | apply Hfit; [reflexivity|]; repeat constructor; auto].
+    - (* RGB *)
+      rewrite !andb_false_r.
+      unfold make_header; cbn [fst snd r_mode r_w r_h r_bands mode_eqb mode_code Z.eqb Pos.eqb
+           color_mode_of has_alpha cm_channels Z.add].
+      rewrite doc_topil_after_set; [reflexivity| apply Hok; lia | apply Hfit; [reflexivity|]; repeat constructor; auto].
+    - (* RGBA *)
+      rewrite andb_false_r, andb_true_r.
+      destruct (fx_matte c).
+      + unfold make_header; cbn [fst snd r_mode r_w r_h r_bands mode_eqb mode_code Z.eqb Pos.eqb
+             color_mode_of has_alpha cm_channels Z.add matte map_rgba color_bands base
+             nbands firstn last_band last map app].
+        rewrite doc_topil_after_set; [reflexivity| apply Hok; lia | apply Hfit; [reflexivity|]].
+        assert (Hq : forall q, wf_plane w h q -> zlen (zipw matte_px q p2) = w * h * bps 8).
+        { intros q Hq. unfold zlen. rewrite zipw_length.
+          - fold (zlen q). auto.
+          - destruct Hq as [Hq _]. match goal with H : wf_plane w h p2 |- _ => destruct H as [Hl5 _] end. congruence. }
+        repeat constructor; auto.
+      + unfold make_header; cbn [fst snd r_mode r_w r_h r_bands mode_eqb mode_code Z.eqb Pos.eqb
+             color_mode_of has_alpha cm_channels Z.add].
+        rewrite doc_topil_after_set; [reflexivity| apply Hok; lia | apply Hfit; [reflexivity|]; repeat constructor; auto].
+    - (* CMYK *)
+      rewrite andb_true_r.
+      destruct (fx_cmyk c).
+      + unfold make_header; cbn -[inv_plane zlen bps].
+        rewrite doc_topil_after_set.
+        * cbn -[inv_plane]. unfold unmatte, map_rgba, invert. cbn -[inv_plane].
+          now rewrite !inv_plane_inv.
+        * apply Hok; lia.
+        * apply Hfit; [reflexivity|].
+          repeat constructor; unfold zlen; rewrite inv_plane_length;
+            fold (zlen p) (zlen p0) (zlen p1) (zlen p2); auto.
+      + rewrite andb_false_r.
+        unfold make_header; cbn [fst snd r_mode r_w r_h r_bands mode_eqb mode_code Z.eqb Pos.eqb
+             color_mode_of has_alpha cm_channels Z.add].
+        rewrite doc_topil_after_set; [reflexivity| apply Hok; lia | apply Hfit; [reflexivity|]; repeat constructor; auto].
+  Qed.
+
+  (* the NumPy export of the same document: the stored planes as they are (no inversion) *)
+  Lemma doc_export_np_spec c cmp img :
+    wf_raster img -> 1 <= r_w img -> 1 <= r_h img ->
+    r_mode img = ML \/ r_mode img = MLA \/ r_mode img = MRGB \/ r_mode img = MCMYK ->
+    doc_export_np c cmp img =
+    Ok (if mode_eqb (r_mode img) MCMYK && fx_cmyk c then map inv_plane (r_bands img) else r_bands img).
+  Proof.
+    intros (Hw0 & Hh0 & Hlen & Hall) Hw Hh Hm.
+    destruct img as [m w h bands]. cbn [r_mode r_w r_h r_bands] in *.
+    rewrite doc_export_np_unfold. unfold doc_frompil_planes.
+    assert (Hz : forall p, wf_plane w h p -> zlen p = w * h * bps 8)
+      by (intros; apply wf_plane_zlen; auto).
+    assert (Hok : forall cm ch, 1 <= ch -> header_ok (mkH cm ch w h 8))
+      by (intros; unfold header_ok, depth_ok; cbn; auto).
+    assert (Hfit : forall cm ch ps, zlen ps = ch -> Forall (fun p => zlen p = w * h * bps 8) ps ->
+                                    planes_fit (mkH cm ch w h 8) ps)
+      by (intros; split; auto).
+    destruct Hm as [->|[->|[->| ->]]]; cbn in Hlen;
+      repeat (destruct bands as [|? bands]; try discriminate);
+      repeat match goal with H : Forall _ (_ :: _) |- _ => inversion H; clear H; subst end;
+      replace (fx_bitmap c && mode_eqb _ M1) with false by (now rewrite andb_false_r);
+      cbn [r_mode r_w r_h r_bands mode_eqb mode_code Z.eqb Pos.eqb andb].
+    - rewrite !andb_false_r. unfold make_header.
+      cbn [fst snd r_mode r_w r_h r_bands mode_eqb mode_code Z.eqb Pos.eqb color_mode_of has_alpha cm_channels Z.add].
+      rewrite doc_numpy_after_set; [reflexivity| apply Hok; lia | apply Hfit; [reflexivity|]; repeat constructor; auto | left; discriminate].
+    - rewrite !andb_false_r. unfold make_header.
+      cbn [fst snd r_mode r_w r_h r_bands mode_eqb mode_code Z.eqb Pos.eqb color_mode_of has_alpha cm_channels Z.add].
+      rewrite doc_numpy_after_set; [reflexivity| apply Hok; lia | apply Hfit; [reflexivity|]; repeat constructor; auto | left; discriminate].
+    - rewrite !andb_false_r. unfold make_header.
+      cbn [fst snd r_mode r_w r_h r_bands mode_eqb mode_code Z.eqb Pos.eqb color_mode_of has_alpha cm_channels Z.add].
+      rewrite doc_numpy_after_set; [reflexivity| apply Hok; lia | apply Hfit; [reflexivity|]; repeat constructor; auto | right; cbn; lia].
+    - rewrite andb_true_r. destruct (fx_cmyk c).
+      + unfold make_header. cbn -[inv_plane zlen bps].
+        rewrite doc_numpy_after_set; [reflexivity| apply Hok; lia | | left; discriminate].
+        apply Hfit; [reflexivity|].
+        repeat constructor; unfold zlen; rewrite inv_plane_length;
+          fold (zlen p) (zlen p0) (zlen p1) (zlen p2); auto.
+      + rewrite andb_false_r. unfold make_header.
+        cbn [fst snd r_mode r_w r_h r_bands mode_eqb mode_code Z.eqb Pos.eqb color_mode_of has_alpha cm_channels Z.add].
+        rewrite doc_numpy_after_set; [reflexivity| apply Hok; lia | apply Hfit; [reflexivity|]; repeat constructor; auto | left; discriminate].
+  Qed.
+End DocLaws.
+
+(* alpha survives the white matte and its removal; colours of opaque pixels are exact *)
+Lemma unmatte_matte_alpha r : r_mode r = MRGBA -> last_band (unmatte (matte r)) = last_band r.
+Proof.
+  intro Hm. unfold unmatte, matte, map_rgba. rewrite Hm. cbn [r_mode].
+  unfold last_band. cbn [r_bands]. rewrite !last_last. reflexivity.
+Qed.
+
+Lemma zipw_matte_unmatte_opaque p a :
+  bytes p -> length a = length p -> Forall (fun x => x = 255) a ->
+  zipw unmatte_px (zipw matte_px p a) a = p.
+Proof.
+  intros Hp; revert a; induction Hp as [|x p Hx _ IH]; intros [|y a] Hl Ha; cbn in *;
+    try discriminate; [reflexivity|].
+  inversion Ha; subst. f_equal.
+  - now apply matte_unmatte_opaque.
+  - apply IH; auto.
 Qed.
